@@ -257,6 +257,9 @@ def general_cases(draw):
         n = draw(st.sampled_from([1, 2]))  # quarter / half circle as rational quadratics
         r = draw(st.sampled_from([F(1), F(2), F(1, 2)]))
         return {"kind": kind, "quarters": n, "r": r, "cx": draw(quarter(0)), "cy": draw(quarter(0)),
+                # the last piece may be the complementary (270 degree) arc of its control triangle: same points, the
+                # middle weight negative (the weight function stays positive); it leaves the hull of its control points
+                "complement": draw(st.integers(0, 2)) == 0,
                 "qkind": draw(st.sampled_from(["grid", "on-curve"])), "t0": draw(st.integers(1, 31)),
                 "q": draw(st.lists(st.integers(-8, 8).map(lambda v: F(v, 2)), min_size=2, max_size=2))}
     c = draw(gen.curves(2, 3, 2, nums=("float",), rational=False, dim=2,
@@ -289,8 +292,10 @@ def check_general(case, out):
             U = [0., 0., 0., .5, .5, 1., 1., 1.]
             P = [(cx + r, cy), (cx + r, cy + r), (cx, cy + r), (cx - r, cy + r), (cx - r, cy)]
             w = [1., s, 1., s, 1.]
+        if case.get("complement"):
+            w[-2] = -s
         curve = lib.Curve(U, np.array([[float(x) for x in p] for p in P]), w)
-        klass = "arc"
+        klass = "arc" + (";complement" if case.get("complement") else "")
     else:
         curve = lib.build_curve(case["curve"])
         klass = "spline;p=%d" % case["curve"]["p"]
